@@ -400,6 +400,7 @@ func runC25(c *Ctx) {
 						lastR = j
 					}
 				}
+				changed := false
 				for _, cut := range []int{lastB, lastR, len(replay) - 1} {
 					if cut < 0 {
 						continue
@@ -410,14 +411,16 @@ func runC25(c *Ctx) {
 					}
 					b2.Token("zz-other").Field("zz.other").FieldRegex("zz", "other")
 					b2.Build()
+					changed = changed || coqQueryOf(q) != snapshot
 					b3 := bs.NewQuery()
 					for _, f := range replay[:cut+1] {
 						f(b3)
 					}
 					b3.FieldToken("yy", "third").FieldRegex("yy", "third")
 					b3.Build()
+					changed = changed || coqQueryOf(q) != snapshot
 				}
-				if coqQueryOf(q) != snapshot {
+				if changed {
 					c.violation("c25-builder-aliasing", "a built query changed when the same expressions were used in another builder", map[string]any{"calls": callNames, "before": snapshot, "after": coqQueryOf(q)})
 				}
 			}
